@@ -17,10 +17,17 @@ BLOB = 2   # BlobLen of the model: n = 0 nothing written, 1 a strict prefix, 2 c
 
 
 # ------------------------------------------------------------------ scenarios
-def _mk(cls_name, write_concern, threading_on):
+def _mk(cls_name, write_concern, threading_on, toggle=False):
     def make(path):
         L = env.lib()
         cls = getattr(L.json, cls_name)
+        if toggle:
+            # the write mode is decided by the configuration in effect WHEN THE SAVE HAPPENS: the object is
+            # created while threading support is off (in-place mode), the support is switched on afterwards
+            cls.disable_multithreading()
+            o = cls(path, write_concern=write_concern)
+            cls.enable_multithreading()
+            return o
         if not threading_on:
             cls.disable_multithreading()
         return cls(path, write_concern=write_concern)
@@ -57,6 +64,11 @@ def scenarios():
     for cls in ("BufferedJSONDict", "MemoryBufferedJSONDict"):
         sc.append({"name": f"{cls}-backend-flush-3-new-files", "cls": cls, "wc": False, "thr": True, "files": 3,
                    "op": "flush_backend", "atomic": True, "missing": True})
+    # threading support re-enabled after the object was created: atomic mode is in effect at the save
+    for cls, op, files in (("JSONDict", "setitem", 1), ("JSONList", "append", 1), ("BufferedJSONDict", "flush_backend", 3),
+                           ("MemoryBufferedJSONDict", "flush_backend", 3)):
+        sc.append({"name": f"{cls}-created-with-threading-off-then-enabled", "cls": cls, "wc": False, "thr": True, "files": files,
+                   "op": op, "atomic": True, "toggle": True})
     # in-place mode: only the serialisation-failure clause applies
     sc.append({"name": "JSONDict-inplace", "cls": "JSONDict", "wc": False, "thr": False, "files": 1, "op": "setitem",
                "atomic": False})
@@ -65,7 +77,7 @@ def scenarios():
 
 def run_op(sc, d, unserializable=False):
     """Executed in the forked child: perform the scenario's saving operation on files in directory d."""
-    make = _mk(sc["cls"], sc["wc"], sc["thr"])
+    make = _mk(sc["cls"], sc["wc"], sc["thr"], sc.get("toggle", False))
     paths = [os.path.join(d, f"f{i}.json") for i in range(sc["files"])]
     objs = [make(p) for p in paths]
     cls = type(objs[0])
